@@ -175,6 +175,8 @@ class Parser:
         return self.next_token()
 
     def _default_operand(self) -> bool:
+        if self._op_code is not OpCode.COLOR:
+            return self.trigger_error('"default" is allowed only with "set".')
         self._add_instruction(OpCode.MOVEQ, Operand.DEFAULT, Register.OPERAND)
         self._add_instruction(self._op_code)
         return self.next_token()
